@@ -41,6 +41,13 @@ def chain(seed, k, tier):
                         s.entry(h, u, [{"t": "pFCT", "amt": 10**8, "conv": "PEG"}, {"t": "pFCT", "amt": 10**8, "conv": "pUSD"}])
                     else:
                         s.convert(h, u, src, amt, "PEG", track=False)
+    # PEG requests in batches that are rejected when they come up for execution (source never funded, amount above the balance, a
+    # one-way destination in the same batch): a rejected batch takes no part in the bank's distribution and gets neither PEG nor refund
+    poor = s.key("P1")
+    for h in (L["ConvLimit"] + 2, L["V4"] + 2, L["V4"] + 3):
+        s.convert(h, poor, "pXBT", rnd.choice([4000, 20000]) * 10**8, "PEG", track=False)            # holds no pXBT at all
+        s.convert(h, users[1], "pUSD", 10**17 + h, "PEG", track=False)                                 # far above its pUSD
+        s.entry(h, users[2], [{"t": "pUSD", "amt": 10**8, "conv": "PEG"}, {"t": "pUSD", "amt": 10**8, "conv": "pFCT"}])
     s.tip(22)
     return s
 
@@ -57,7 +64,7 @@ def main():
     return lcheck.run_check(PID, family, {"C16"},
         rule="legacy-era chains (bank-limited PEG conversions between the ConvLimit and 2.0 activations, both sides of the V4 fork) with 0..7 PEG requests per "
              "block from pFCT and pUSD, totals far below and far above the 5,000 PEG bank, exact ties for the largest request, requests spread over unrated "
-             "blocks (per-height sets before V4, one pooled set after), and a batch mixing a PEG request with another conversion; TLC recomputes the requested "
+             "blocks (per-height sets before V4, one pooled set after), a batch mixing a PEG request with another conversion, and PEG requests in batches rejected at execution (unfunded, overdrawn, one-way destination); TLC recomputes the requested "
              "amounts, floor shares, dust recipient (highest request, lowest txid among ties), refunds at spot rates, PEG / source-asset deltas and the bank row "
              "(amount, used, requested); non-trivial = every chain",
         corrupt=lcheck.corrupt_balance)
